@@ -87,10 +87,12 @@ func (s *HTTPMessageSignatures) init() error {
 
 	var kse *keystore.Entry
 
-	if len(s.Signer.KeyID) == 0 {
-		kse, err = ks.Entries()[0], nil
-	} else {
+	if len(s.Signer.KeyID) != 0 {
 		kse, err = ks.GetKey(s.Signer.KeyID)
+	} else if entries := ks.Entries(); len(entries) != 0 {
+		kse = entries[0]
+	} else {
+		err = errorchain.NewWithMessage(keystore.ErrNoSuchKey, "key store contains no keys")
 	}
 
 	if err != nil {
